@@ -20,6 +20,8 @@ def showRData : RData → String
   | .tlsa sm u l m d => s!"{if sm then "SMIMEA" else "TLSA"},{u},{l},{m},{toHex d}"
   | .ds t g y d => s!"DS,{t},{g},{y},{toHex d}"
   | .sshfp g y f => s!"SSHFP,{g},{y},{toHex f}"
+  | .cert c t g d => s!"CERT,{c},{t},{g},{toHex d}"
+  | .openpgpkey k => s!"OPENPGPKEY,{toHex k}"
 
 def showRec (r : Rec) : String := s!"{showName r.name}/{r.cls}/{r.ttl}/{showRData r.data}"
 
